@@ -485,6 +485,11 @@ def form_case(ctx, label, form):
         if r["ok"]:
             ctx.fail(Failure("accepted-invalid", "a form the documented rules reject was converted", case,
                              extra={"observed": {k: obs[k] for k in KEYS}}))
+        elif r["class"] == "internal":
+            # "rejected" means a PyXFormError; a crash (e.g. the former KeyError for a sheet without dataset
+            # column, repaired in the tree) is not a rejection
+            ctx.fail(Failure("crash-on-invalid", "internal exception instead of a rejection: " + r["msg"][:200], case,
+                             extra={"impl_msg": r["msg"], "site": r.get("site")}))
     else:
         want = canon_out(spec)
         if r["ok"]:
@@ -523,7 +528,8 @@ def form_case(ctx, label, form):
         elif model["kind"] == "columns":
             if r["class"] != "pyxform" or "unexpected column" not in r["msg"] or not all(f"'{c}'" in r["msg"] for c in model["columns"]):
                 ctx.mismatch("unknown-columns error differs", case, r["msg"][:400], model["columns"])
-        # kind == internal (entities sheet without dataset column, F34/C17): any rejection corresponds
+        elif model["kind"] == "internal" and r["class"] != "internal":
+            ctx.mismatch("model predicts an internal exception, implementation raises PyXFormError", case, r["msg"][:300], model)
     nontrivial = bool(form.get("entities")) or any(x.get("save_to") for x in form["survey"])
     ctx.record(case, nontrivial)
 
